@@ -72,6 +72,9 @@ func init() {
 		"reflect.ValueOf":              ext۰reflect۰ValueOf,
 		"reflect.Zero":                 ext۰reflect۰Zero,
 		"reflect.Indirect":             ext۰reflect۰Indirect,
+		"reflect.NewAt":                ext۰reflect۰NewAt,
+		"(reflect.Value).FieldByName":  ext۰reflect۰Value۰FieldByName,
+		"(reflect.Value).UnsafeAddr":   ext۰reflect۰Value۰UnsafeAddr,
 
 		// math
 		"math.Float32bits":     extFloat32bits,
